@@ -1515,6 +1515,9 @@ def _compute_permutation_c(
 
     """
     permutation = np.zeros(shape=(len(positions_a),), dtype="intc")
+    # The C function reads the raw buffer as lattice[3][3]. A transposed view
+    # such as PhonopyAtoms.cell.T would be read as its transpose.
+    lattice = np.array(lattice, dtype="double", order="C")
 
     def permutation_error():
         raise ValueError(
